@@ -44,6 +44,7 @@ def configure(cfg):
     cfg.ext_q["SpanProcessor::ForceFlush"] = lambda em, node, recv, args: "xc_proc_ForceFlush(%s, %s)" % (em.expr(unp(recv)), em.expr(args[0]))
     cfg.ext_q["LogRecordProcessor::ForceFlush"] = lambda em, node, recv, args: "xc_proc_ForceFlush(%s, %s)" % (em.expr(unp(recv)), em.expr(args[0]))
     cfg.ext_q["SpanProcessor::Shutdown"] = lambda em, node, recv, args: "xc_proc_Shutdown(%s, %s)" % (em.expr(unp(recv)), em.expr(args[0]))
+    cfg.ext_q["LogRecordProcessor::Shutdown"] = lambda em, node, recv, args: "xc_proc_Shutdown(%s, %s)" % (em.expr(unp(recv)), em.expr(args[0]))
     cfg.ext["now"] = lambda em, node, recv, args: "xc_now()"
     cfg.opaque_records["sdk::trace::SpanProcessor"] = "xc_opaque"
     cfg.opaque_records["sdk::logs::LogRecordProcessor"] = "xc_opaque"
@@ -98,6 +99,13 @@ contracts["TracerContext_Shutdown"] = {"pre":
     "__CPROVER_requires(__CPROVER_is_fresh(self, sizeof(*self)) && g_sd_calls == 0)\n__CPROVER_assigns(g_sd_calls, __CPROVER_object_whole(g_sd_proc))\n"
     "__CPROVER_ensures(g_sd_calls == 1 && g_sd_proc[0] == (unsigned long)self->processor_ && g_ff_calls == __CPROVER_old(g_ff_calls))\n"
     "__CPROVER_ensures((__CPROVER_return_value != 0) == (g_sd_ans[0] != 0))\n"}
+TU_LC = ("tu_logger_context", '#include "%s/sdk/src/logs/logger_context.cc"\n' % R.core.REPO)
+for _n in ("ForceFlush", "Shutdown"):
+    contracts["LoggerContext_" + _n] = contracts["TracerContext_" + _n]
+    _plc = Proof("LoggerContext_" + _n, [("LoggerContext::" + _n, 1)], enforce="LoggerContext_" + _n, timeout=300,
+                 desc="the logger-provider-level call reaches the processor exactly once with the caller's timeout and reports its answer")
+    _plc.tu = TU_LC
+    proofs.append(_plc)
 for _n in ("ForceFlush", "Shutdown"):
     _ptc = Proof("TracerContext_" + _n, [("TracerContext::" + _n, 1)], enforce="TracerContext_" + _n, timeout=300,
                  desc="the provider-level call reaches the processor exactly once with the caller's timeout and reports its answer")
